@@ -273,7 +273,7 @@ Lemma types_delete_unused_back s s' keep : types_delete_unused s keep = Ok s' ->
   forall id t, aset_index s' id = Some t -> aset_index s id = Some t.
 Proof. intros H. exact (ty_fold_back keep _ _ _ H). Qed.
 
-Lemma gc_types_back m m' : gc m = Ok m' -> forall id t, types_get m' id = Some t -> types_get m id = Some t.
+Lemma gc_types_back m m' : gc_sweep m = Ok m' -> forall id t, types_get m' id = Some t -> types_get m id = Some t.
 Proof.
   intros H id t. destruct (gc_shape m m' H) as [u [Hu _]].
   destruct (G.gc_fields m m' u H Hu) as (_ & _ & _ & _ & _ & _ & Ety).
@@ -281,7 +281,7 @@ Proof.
 Qed.
 
 (* d. nothing is altered, only removed: the seven arenas, the type set, and the locals (untouched) *)
-Theorem gc_kept_unchanged m m' : gc m = Ok m' ->
+Theorem gc_kept_unchanged m m' : gc_sweep m = Ok m' ->
   (forall id v, aget (m_funcs m') id = Some v -> aget (m_funcs m) id = Some v) /\
   (forall id v, aget (m_tables m') id = Some v -> aget (m_tables m) id = Some v) /\
   (forall id v, aget (m_globals m') id = Some v -> aget (m_globals m) id = Some v) /\
@@ -324,7 +324,7 @@ Proof.
   - destruct (aget a id) as [v|] eqn:E; [|reflexivity]. exfalso. assert (X : @None A = Some v) by (apply R; auto). discriminate X.
 Qed.
 
-Lemma gc_same_at m m' u : gc m = Ok m' -> gc_rel m m' u -> forall x, In x u -> same_at m m' x.
+Lemma gc_same_at m m' u : gc_sweep m = Ok m' -> gc_rel m m' u -> forall x, In x u -> same_at m m' x.
 Proof.
   intros H R [s id] Hx. unfold same_at. cbn [fst snd]. destruct s.
   - exact (rel_same _ _ _ id (gr_funcs _ _ _ R id) Hx).
@@ -368,8 +368,8 @@ Qed.
 
 (* e. the reachable part is identical before and after: a kept entity refers to the same entities in
    both modules, they are kept, and they look the same in both modules.
-   [U] is the set reached from the roots; [u] (what gc keeps) may have one more element. *)
-Theorem gc_reachable_closed_submodule m m' : gc m = Ok m' ->
+   [U] is the set reached from the roots; [u] (what gc_sweep keeps) may have one more element. *)
+Theorem gc_reachable_closed_submodule m m' : gc_sweep m = Ok m' ->
   exists u U, used m = Ok u /\ incl U u /\ (forall x, In x u -> fst x <> S_memory -> In x U) /\
     (forall x, In x u -> same_at m m' x) /\
     forall x, In x U -> exists ys, succ m x = Ok ys /\ succ m' x = Ok ys /\
@@ -387,7 +387,7 @@ Qed.
 
 (* the statement over [u] alone, as asked, holds for everything but memories ... *)
 Theorem gc_reachable_closed_submodule_partial m m' u x ys :
-  gc m = Ok m' -> used m = Ok u -> In x u -> fst x <> S_memory -> succ m x = Ok ys ->
+  gc_sweep m = Ok m' -> used m = Ok u -> In x u -> fst x <> S_memory -> succ m x = Ok ys ->
   succ m' x = Ok ys /\ forall y, In y ys -> In y u /\ same_at m m' y.
 Proof.
   intros H Hu Hx Hm Hys. destruct (gc_reachable_closed_submodule m m' H) as (u' & U & Hu' & HUu & Hnm & _ & Hcl).
@@ -421,7 +421,7 @@ Proof.
 Qed.
 
 Theorem gc_reachable_closed_submodule_segs m m' u x ys :
-  segs_active m -> gc m = Ok m' -> used m = Ok u -> In x u -> succ m x = Ok ys ->
+  segs_active m -> gc_sweep m = Ok m' -> used m = Ok u -> In x u -> succ m x = Ok ys ->
   succ m' x = Ok ys /\ forall y, In y ys -> In y u /\ same_at m m' y.
 Proof.
   intros SA H Hu Hx Hys.
@@ -456,7 +456,7 @@ Definition wit_e : wir :=
      m_debug := []; m_name := None; m_config := default_config; m_code_section_offset := 0 |}.
 
 Theorem gc_reachable_closed_submodule_refuted :
-  exists m m' u x ys y, gc m = Ok m' /\ used m = Ok u /\ In x u /\ succ m x = Ok ys /\ In y ys /\ ~ In y u /\
+  exists m m' u x ys y, gc_sweep m = Ok m' /\ used m = Ok u /\ In x u /\ succ m x = Ok ys /\ In y ys /\ ~ In y u /\
                         aget (m_memories m') (snd x) = aget (m_memories m) (snd x) /\
                         aget (m_data m) (snd y) <> None /\ aget (m_data m') (snd y) = None.
 Proof.
@@ -469,7 +469,7 @@ Qed.
 
 (* a kept function: same record (kind, body arena, arguments, name), its type is kept with the same
    value, and the locals arena is the same *)
-Theorem gc_kept_function m m' id f : gc m = Ok m' -> aget (m_funcs m') id = Some f ->
+Theorem gc_kept_function m m' id f : gc_sweep m = Ok m' -> aget (m_funcs m') id = Some f ->
   aget (m_funcs m) id = Some f /\
   types_get m' (func_ty f) = types_get m (func_ty f) /\
   m_locals m' = m_locals m.
@@ -511,7 +511,7 @@ Proof.
   - destruct (aget (m_globals m) id) as [v|] eqn:E; [|discriminate]. exists v. split; [apply (gr_globals _ _ _ R); auto|reflexivity].
 Qed.
 
-Theorem gc_exports_start_same_targets m m' : gc m = Ok m' ->
+Theorem gc_exports_start_same_targets m m' : gc_sweep m = Ok m' ->
   m_exports m' = m_exports m /\ m_start m' = m_start m /\
   (forall id e, aget (m_exports m') id = Some e -> item_same m m' (ex_kind e) (ex_item e)) /\
   (forall f, m_start m' = Some f -> item_same m m' EK_Func f).
